@@ -12,7 +12,7 @@ Qed.
 
 Section Sound.
 Variable w : world.
-Variable opt : label -> bool.
+Variable opt : label -> oclass.
 Hypothesis Hb : base_ok opt w.
 
 Definition alpha (s : st) : astate := (gone w s, s_cache s).
@@ -96,28 +96,28 @@ Proof.
     + assert (Gs : gone w s = false) by (destruct (gone w s); auto; specialize (G eq_refl); discriminate).
       rewrite Gs. destruct (w_deny w (s_idx s)).
       * inversion H; subst. rewrite A2. inl.
-      * destruct (opt l) eqn:Ho.
-        -- destruct (w_base w false (l_kind l) Self (l_file l) (s_cur s)) as [d|e];
-             inversion H; subst; [rewrite A1 | rewrite A2]; try inl. destruct e; inl.
-        -- specialize (B eq_refl).
-           destruct (w_base w false (l_kind l) Self (l_file l) (s_cur s)) as [d|e];
-             inversion H; subst; [rewrite A1 | rewrite A2]; try inl. destruct e; try discriminate; inl.
+      * destruct (opt l) eqn:Ho; simpl in B;
+          destruct (w_base w false (l_kind l) Self (l_file l) (s_cur s)) as [d|e];
+          inversion H; subst; [rewrite A1 | rewrite A2 | rewrite A1 | rewrite A2 | rewrite A1 | rewrite A2];
+          try inl; destruct e; try discriminate; inl.
   - (* Other *)
     simpl in H.
-    assert (R : forall x, (x = ANormal \/ x = ARaise XPerm \/ x = ARaise XFnf \/ x = ARaise XEsrch
-                           \/ (opt l = true /\ x = ARaise XOsOther)) ->
+    assert (R : forall x, (x = ANormal \/ x = ARaise XPerm \/ (opt l <> Strict /\ x = ARaise XFnf) \/ (opt l <> Strict /\ x = ARaise XEsrch)
+                           \/ (opt l = MayVanishOrInval /\ x = ARaise XOsOther)) ->
                 In (x, (gone_at w (s_idx s), s_cache s)) (acc_other (opt l) (gone w s, s_cache s))).
     { intros x Hx. unfold acc_other.
       destruct (opt l) eqn:Hol; destruct (gone w s) eqn:Gs;
         try rewrite (G eq_refl); destruct (gone_at w (s_idx s));
-        destruct Hx as [-> | [-> | [-> | [-> | [Ho ->]]]]]; try discriminate; inl. }
+        destruct Hx as [-> | [-> | [[Ho ->] | [[Ho ->] | [Ho ->]]]]]; try discriminate; try congruence; inl. }
     destruct (w_deny w (s_idx s)).
     + inversion H; subst. rewrite A2. apply R. auto.
     + destruct (w_base w (gone_at w (s_idx s)) (l_kind l) Other (l_file l) (s_cur s)) as [d|e] eqn:Eb;
         inversion H; subst; [rewrite A1 | rewrite A2]; apply R; auto.
-      destruct e; simpl; auto 6.
-      all: try (right; right; right; right; split; auto; destruct (opt l) eqn:Ho2; auto;
-                specialize (B Ho2); try rewrite Eb in B; simpl in B; discriminate).
+      try rewrite Eb in B.
+      destruct e; simpl; auto 6; destruct (opt l) eqn:Ho2; simpl in B; try discriminate;
+        first [ right; right; left; split; [congruence | reflexivity]
+              | right; right; right; left; split; [congruence | reflexivity]
+              | right; right; right; right; split; reflexivity ].
   - (* Global *)
     simpl in H.
     destruct (w_base w (gone_at w (s_idx s)) (l_kind l) Global (l_file l) (s_cur s)) as [d|e] eqn:Eb;
@@ -134,27 +134,27 @@ Proof.
       * assert (Gs : gone w s = false) by (destruct (gone w s); auto; specialize (G eq_refl); discriminate).
         rewrite Gs. destruct (w_deny w (s_idx s)).
         -- inversion H; subst. rewrite A2. inl.
-        -- destruct (opt l) eqn:Ho.
-           ++ destruct (w_base w false (l_kind l) Self (l_file l) (s_cur s)) as [d|e];
-                inversion H; subst; [rewrite A1 | rewrite A2]; try inl. destruct e; inl.
-           ++ specialize (B eq_refl).
-              destruct (w_base w false (l_kind l) Self (l_file l) (s_cur s)) as [d|e];
-                inversion H; subst; [rewrite A1 | rewrite A2]; try inl. destruct e; try discriminate; inl.
+        -- destruct (opt l) eqn:Ho; simpl in B;
+             destruct (w_base w false (l_kind l) Self (l_file l) (s_cur s)) as [d|e];
+             inversion H; subst; [rewrite A1 | rewrite A2 | rewrite A1 | rewrite A2 | rewrite A1 | rewrite A2];
+             try inl; destruct e; try discriminate; inl.
     + right. simpl in H.
-      assert (R : forall x, (x = ANormal \/ x = ARaise XPerm \/ x = ARaise XFnf \/ x = ARaise XEsrch
-                             \/ (opt l = true /\ x = ARaise XOsOther)) ->
+      assert (R : forall x, (x = ANormal \/ x = ARaise XPerm \/ (opt l <> Strict /\ x = ARaise XFnf) \/ (opt l <> Strict /\ x = ARaise XEsrch)
+                             \/ (opt l = MayVanishOrInval /\ x = ARaise XOsOther)) ->
                   In (x, (gone_at w (s_idx s), s_cache s)) (acc_other (opt l) (gone w s, s_cache s))).
       { intros x Hx. unfold acc_other.
         destruct (opt l) eqn:Hol; destruct (gone w s) eqn:Gs;
           try rewrite (G eq_refl); destruct (gone_at w (s_idx s));
-          destruct Hx as [-> | [-> | [-> | [-> | [Ho ->]]]]]; try discriminate; inl. }
+          destruct Hx as [-> | [-> | [[Ho ->] | [[Ho ->] | [Ho ->]]]]]; try discriminate; try congruence; inl. }
       destruct (w_deny w (s_idx s)).
       * inversion H; subst. rewrite A2. apply R. auto.
       * destruct (w_base w (gone_at w (s_idx s)) (l_kind l) Other (l_file l) (s_cur s)) as [d|e] eqn:Eb;
           inversion H; subst; [rewrite A1 | rewrite A2]; apply R; auto.
-        destruct e; simpl; auto 6.
-        all: try (right; right; right; right; split; auto; destruct (opt l) eqn:Ho2; auto;
-                  specialize (B Ho2); try rewrite Eb in B; simpl in B; discriminate).
+        try rewrite Eb in B.
+        destruct e; simpl; auto 6; destruct (opt l) eqn:Ho2; simpl in B; try discriminate;
+          first [ right; right; left; split; [congruence | reflexivity]
+                | right; right; right; left; split; [congruence | reflexivity]
+                | right; right; right; right; split; reflexivity ].
 Qed.
 
 Theorem an_sound : forall p cx s sg s',
